@@ -5,7 +5,11 @@ registers x operand values at the flag boundaries x carry in); the real Simulate
 executes one step from each; TraceMsp430 (TLC) recomputes the step with Msp430Cpu!Step
 (transcribed from SLAU144) and compares registers, flags and changed memory bytes."""
 import json
+import os
 import random
+import re
+import subprocess
+from concurrent.futures import ThreadPoolExecutor
 
 from .. import common as C
 
@@ -37,6 +41,100 @@ def klass(w):
         rk = "cg" if r == 3 or (r == 2 and a >= 2) else {0: "pc", 2: "sr"}.get(r, "rn")
         return "%s%s %s/As%d" % (names[(w >> 7) & 7], ".b" if bw else ".w", rk, a)
     return "other"
+
+
+ORG = 0xf800
+DUMP = re.compile(r" PC: 0x([0-9a-f]{4}),\s+SP: 0x([0-9a-f]{4}),\s+SR: 0x([0-9a-f]{4}),\s+CG: 0x([0-9a-f]{4}),")
+REGS = re.compile(r"r(\d+): 0x([0-9a-f]{4})")
+CYC = re.compile(r"(\d+) clock cycles have passed")
+
+
+def hexfile(words, org):
+    """Intel HEX of a word sequence (little endian) at org"""
+    data = b"".join(bytes([w & 255, w >> 8]) for w in words)
+    out = []
+    for o in range(0, len(data), 16):
+        chunk = data[o:o + 16]
+        rec = bytes([len(chunk), ((org + o) >> 8) & 255, (org + o) & 255, 0]) + chunk
+        out.append(":%s%02X" % (rec.hex().upper(), (-sum(rec)) & 255))
+    return "\n".join(out) + "\n:00000001FF\n"
+
+
+def run_routine(a):
+    exe, path, bio = a
+    args = [exe, "-msp430", "-set_pc", "0x%x" % ORG] + (["-break_io", "0x%x" % bio] if bio >= 0 else []) + ["-run", path]
+    try:
+        p = subprocess.run(args, stdout=subprocess.PIPE, stderr=subprocess.STDOUT, timeout=20)
+        return p.returncode, p.stdout.decode(errors="replace")
+    except subprocess.TimeoutExpired:
+        return -9, "timeout"
+
+
+def routine_part(chk, vdir, tier, rnd):
+    """second half of C14: naken_util -run / -break_io against Msp430Cpu!RunFrom"""
+    rd = chk.rundir
+    g = C.tlc("GenMsp430Run", "gen_Msp430Run.cfg", os.path.join(rd, "genrun"), workers=4, heap="4g", deadlock=False)
+    chk.add_tlc(g)
+    rts = C.parse_payload(g.lines, "CASE ")
+    if len(rts) < 15000:
+        raise C.InfraError("only %d routines" % len(rts))
+    if tier == "quick":
+        rts = rnd.sample(rts, 500)
+    wd = os.path.join(rd, "run")
+    os.makedirs(wd)
+    jobs = []
+    for i, r in enumerate(rts):
+        path = os.path.join(wd, "r%d.hex" % i)
+        open(path, "w").write(hexfile(r["words"], ORG))
+        jobs.append((os.path.join(vdir, "naken_util"), path, r["bio"]))
+    with ThreadPoolExecutor(C.NCPU) as ex:
+        outs = list(ex.map(run_routine, jobs))
+    events = []
+    for i, (r, (rc, out)) in enumerate(zip(rts, outs)):
+        if rc == -9 or rc < 0:
+            chk.report("Msp430:run:%s" % ("timeout" if rc == -9 else "signal"), "naken_util -run did not return on routine %s" % r["what"],
+                       dict(routine=r, rc=rc, out=out[-600:]))
+            continue
+        tail = out[out.rfind("Simulation Register Dump"):]
+        m, cy = DUMP.search(tail), CYC.search(tail)
+        if not m or not cy:
+            chk.report("Msp430:run:no final register dump", "no register dump after running %s" % r["what"], dict(routine=r, rc=rc, out=out[-800:]))
+            continue
+        regs = [int(m.group(k), 16) for k in (1, 2, 3, 4)] + [0] * 12
+        for n, v in REGS.findall(tail):
+            if 4 <= int(n) <= 15:
+                regs[int(n)] = int(v, 16)
+        events.append(dict(id="r%d" % i, words=r["words"], org=ORG, bio=r["bio"], regs=regs, cycles=int(cy.group(1)), status=rc))
+    canaries = set()
+    for e in rnd.sample([e for e in events if e["bio"] < 0], 6):
+        c = json.loads(json.dumps(e))
+        c["id"] = "canary." + e["id"]
+        c["cycles"] += 1
+        canaries.add(c["id"])
+        events.append(c)
+    for e in rnd.sample([e for e in events if e["bio"] >= 0 and e["status"] != 0 and not e["id"].startswith("canary")], 4):
+        c = json.loads(json.dumps(e))
+        c["id"] = "canary." + e["id"]
+        c["status"] ^= 1
+        canaries.add(c["id"])
+        events.append(c)
+    verdicts, runs = C.tlc_accept("TraceMsp430Run", "trace_Msp430Run.cfg", events, rd, "c14run", heap="4g")
+    for x in runs:
+        chk.add_tlc(x)
+    bad = {v["id"]: v for v in verdicts}
+    if [c for c in canaries if c not in bad]:
+        raise C.InfraError("routine canaries accepted")
+    byid = {e["id"]: e for e in events}
+    for vid, v in sorted(bad.items()):
+        if vid in canaries:
+            continue
+        e = byid[vid]
+        r = rts[int(vid[1:])]
+        chk.report("Msp430:run:%s:%s" % (v["why"], "+".join(str(x) for x in r["what"][2:4])),
+                   "%s: routine %s words %s: simulator regs %s cycles %d status %d, model %s" % (
+                       v["why"], r["what"], " ".join("%04x" % w for w in r["words"]), e["regs"], e["cycles"], e["status"], json.dumps(v["expect"])),
+                   dict(routine=r, observed=e, expect=v["expect"], why=v["why"]))
+    return len(events) - len(canaries)
 
 
 def run(tier, seed):
@@ -104,8 +202,9 @@ def run(tier, seed):
                    "word 0x%04x (%s): %s differs: expected %s, simulator regs %s diff %s" % (
                        w, klass(w), v["why"]["what"], json.dumps(v["why"]["expect"]), json.dumps(o["a"]["regs"]), o["a"]["diff"]),
                    dict(case=c, observed=o["a"], why=v["why"]))
+    nrun = routine_part(chk, vdir, tier, rnd)
     chk.cov.update(dict(
-        evaluations=len(cases), generated=total,
+        evaluations=len(cases) + nrun, generated=total, routines_run=nrun,
         distinct_nontrivial=len({klass(decode_word(c)) for c in gen}),
         rule="TLC enumerates 12 two-operand and 7 one-operand instructions and 8 jumps x source/destination addressing "
              "modes x byte/word x registers (pc, sr, cg, r5, r15 / r6, r9) x operand values at carry/overflow/BCD boundaries "
